@@ -231,6 +231,12 @@ def rule_counter(ctx):
         g = turn_is_white_guard(ix, b, sym, bi)
         switches = [x for x, t in b.calls() if callee_is(t, SWITCH_TURN)]
         res[key] = (g, bi, switches, b)
+        # "iff": the colour test is the only thing that decides whether the counter moves, and it is evaluated on every path
+        cons = C.constraints_for(ix, b, sym, bi)
+        extra = [(c[0][:60], sorted(map(str, c[1]))) for c in cons if g is None or c[2] != g[0]]
+        always = g is not None and mir.EXIT not in b.reachable_from(0, removed={g[0]}, include_start=True)
+        ctx.check(not extra and always, "%s:counter-iff-colour" % key, "the counter update depends on the colour test only, which every path evaluates", b.where(bi),
+                  bad_what="the fullmove_counter update in %s additionally depends on %s: make and unmake can disagree on when the counter moves" % (C.short(key), extra))
     if len(res) == 2:
         gm, bm, sm, mb = res[MAKE]
         gu, bu, su, ub = res[UNMAKE]
@@ -287,6 +293,12 @@ def rule_ep_restore(ctx):
                 break
         ctx.check(g is not None, "%s:ep-guarded-by-double-push" % key, "the Some branch is taken iff the record is a double pawn push", b.where(sb),
                   bad_what="the Some(file) assignment is not guarded by is_double_pawn_push of the record")
+        if g:
+            cons = C.constraints_for(ix, b, sym, sb)
+            extra = [(c[0][:60], sorted(map(str, c[1]))) for c in cons if c[2] != g[0]]
+            always = mir.EXIT not in b.reachable_from(0, removed={g[0]}, include_start=True)
+            ctx.check(not extra and always, "%s:ep-iff-double-push" % key, "nothing but the double-push flag decides between Some(file) and None, on every path", b.where(sb),
+                      bad_what="the en-passant restore in %s additionally depends on %s" % (C.short(key), extra))
         if g:
             d, e, neg = g
             f, tr = C.switch_edges(b.blocks[d].term)
